@@ -108,7 +108,7 @@ pub fn run(args: &Args, r: &mut Report) {
     r.assume("a request whose construction fails (service URL rejected by the http crate) is a don't-care for the two metrics");
     let seqs = all_sequences();
     let variants = seqs.len() as u64 * 4;
-    let reps: u64 = if args.thorough() { 20 } else { 1 };
+    let reps: u64 = if args.thorough() { 25 } else { 4 };
     let total = ((variants * reps) as f64 * args.scale.min(1.0).max(0.01)) as u64;
     let mut backoffs = vec![];
     let mut enumerated = 0u64;
